@@ -193,7 +193,7 @@ def scale_specs(tier, seed):
 def model_constants(tier):
     c = dict(kc.KERNEL_CONSTANTS_SMALL)
     if tier == "thorough":
-        c.update(Ns={5, 6}, Kmax=3, DataSet="full", Ls={1, 2, 3, 4, 5, 6})
+        c.update(Ns={5}, Kmax=3)          # every start vector of length <= 3 (a second thorough run widens the data: see run())
     return c
 
 
@@ -209,6 +209,14 @@ def run(tier: str) -> int:
     cases = res.json_prints()
     if not cases:
         raise tlc.TLCError("Kernel model emitted no cases")
+    if tier == "thorough":
+        resb = tlc.run_model("Kernel", f"{PID}_model_full", constants=dict(kc.KERNEL_CONSTANTS_SMALL, Ns={6}, Ls={1, 2, 3, 4, 5, 6}, Kmax=2, DataSet="full"),
+                             invariants=kc.KERNEL_INVARIANTS, timeout=14400)
+        if resb.violated:
+            raise tlc.TLCError(f"Kernel.tla (full data set) violates {resb.violated}")
+        V.model(resb, "Kernel.tla grain=segment, N=6, full data set (all signed impulses, all impulse pairs, dense pairs)")
+        cases += resb.json_prints()
+        resb = None
     # 2. per-sample grain: the loop invariant in every intermediate state
     c2 = dict(model_constants("quick"), Grain="sample", EmitCases=False, Ns={4}, Ls={1, 2, 3, 4}, Wins={"asym"})
     if tier == "thorough":
